@@ -499,6 +499,11 @@ def cases(tier, seed):
             cu, cv = _canon(u), _canon(v)
             u2, v2 = alt(cu), alt(cv)
             out.append(Case("H03.a", f"{op}:{u},{v}->{u2},{v2}", M, "h_binop", {"op": op, "u": u, "u2": u2, "v": v, "v2": v2}, weight=3.0 if op in ("mod", "divmod", "floordiv") else 1.0, opts={"query_timeout_ms": 20000}))
+    # orderings and equality over offset temperature scales (the alternative units are other scales:
+    # the sign of the magnitude says nothing about the order there)
+    for op in ("eq", "ne", "lt", "le", "gt", "ge"):
+        for u, v, u2, v2 in (("degree_Celsius", "kelvin", "degree_Fahrenheit", "degree_Rankine"), ("kelvin", "degree_Fahrenheit", "degree_Celsius", "kelvin"), ("degree_Celsius", "degree_Fahrenheit", "kelvin", "degree_Celsius"), ("degree_Reaumur", "degree_Celsius", "degree_Rankine", "degree_Fahrenheit")):
+            out.append(Case("H03.a", f"{op}:{u},{v}->{u2},{v2}", M, "h_binop", {"op": op, "u": u, "u2": u2, "v": v, "v2": v2}, opts={"query_timeout_ms": 20000}))
     # any-dimension operators
     cov = covers.cover()
     for op in ("mul", "truediv"):
